@@ -65,6 +65,8 @@ def _get_engine(opts, jpath=None):
         e = Engine(prog, o)
         setup = o.get('setup')
         e.run_inits()
+        if o.get('setup_fn'):
+            e.run_setup(o['setup_fn'])
         if setup:
             import importlib
             mod, fn = setup.rsplit(':', 1)
@@ -437,8 +439,19 @@ def run_check(spec, tier='quick', seed=0, jobs=None, keep=False, verbose=True):
         obs_pkgs = sorted(p for p, it in by_pkg.items() if any(x[0] == 'obs' for x in it))
         maxp = getattr(spec, 'NATIVE_PKGS_MAX', None)
         if maxp and len(obs_pkgs) > maxp:
-            import random
-            keep_p = set(random.Random(seed).sample(obs_pkgs, maxp))
+            # a seed-rotated window of packages, extended until enough sampled paths are covered
+            start = seed % len(obs_pkgs)
+            order = obs_pkgs[start:] + obs_pkgs[:start]
+            keep_p = set()
+            have = 0
+            want = getattr(spec, 'MAX_VALIDATE', 40)
+            for p in order:
+                if len(keep_p) >= maxp and have >= want:
+                    break
+                if len(keep_p) >= maxp + 2:
+                    break
+                keep_p.add(p)
+                have += len([1 for x in by_pkg[p] if x[0] == 'obs'])
         else:
             keep_p = set(obs_pkgs)
         for pkg, items in by_pkg.items():
